@@ -1,7 +1,10 @@
 package signer
 
 import (
+	"io"
+	"net/http"
 	"net/url"
+	"time"
 )
 
 // ---------------------------------------------------------------------------
@@ -75,5 +78,136 @@ func verifC06_CanonicalURI() {
 	}
 	if u.Path != w {
 		verifCover("wire-path-differs-from-decoded-path")
+	}
+}
+
+// ---- the whole Sign / Verify flow with transparent digests -------------------------------
+//
+// HMAC-SHA256 and SHA-256 are collision-free by contract. They are replaced by injective
+// text encodings (the digest of x "is" x), so that "the signature verifies" becomes "the
+// canonical texts are equal" and the solver can decide which parts of a request the signature
+// covers. Everything else is the REAL signer code: canonical URI / query / headers, the
+// Authorization header format and its parser, scope and date handling, the TTL check.
+
+func vHmac(key []byte, data []byte) []byte {
+	return []byte("H(" + string(key) + "|" + string(data) + ")")
+}
+func vSha(data []byte) string       { return "S(" + string(data) + ")" }
+func vHex(src []byte) string        { return string(src) }
+
+var vSignTime = time.Date(2022, 3, 4, 5, 6, 7, 0, time.UTC)
+var vVerifyAge time.Duration
+
+func vSignerNow() time.Time { return vSignTime.Add(vVerifyAge) }
+
+type vKeyStore struct{}
+
+func (vKeyStore) GetSecret(id string) (string, bool) {
+	if id == "key1" {
+		return "secret1", true
+	}
+	return "", false
+}
+
+type vReqBody struct {
+	data []byte
+	pos  int
+}
+
+func (b *vReqBody) Read(p []byte) (int, error) {
+	if b.pos >= len(b.data) {
+		return 0, io.EOF
+	}
+	n := copy(p, b.data[b.pos:])
+	b.pos += n
+	return n, nil
+}
+func (b *vReqBody) Close() error { return nil }
+
+func vAlnum(s string) bool {
+	ok := true
+	for i := 0; i < len(s); i++ {
+		c := s[i]
+		if !(c >= 'a' && c <= 'z' || c >= '0' && c <= '9') {
+			ok = false
+		}
+	}
+	return ok
+}
+
+type vParts struct {
+	method, path, query, header string
+	body                        []byte
+}
+
+func vPartsOf(label string, n int) vParts {
+	p := vParts{}
+	p.method = []string{"GET", "POST"}[verifChoose(label+".method", 2)]
+	p.path = "/" + verifString(label+".path", n)
+	p.query = verifString(label+".queryValue", n)
+	p.header = verifString(label+".signedHeaderValue", n)
+	verifAssume(vAlnum(p.path[1:]) && vAlnum(p.query) && vAlnum(p.header))
+	p.body = verifBytes(label+".body", verifChoose(label+".bodyLength", n+1))
+	return p
+}
+
+func (p vParts) request() *http.Request {
+	u := &url.URL{Scheme: "http", Host: "api.example.com", Path: p.path, RawQuery: "q=" + p.query}
+	return &http.Request{Method: p.method, URL: u, Host: "api.example.com", Header: http.Header{"X-Tenant": []string{p.header}},
+		Body: &vReqBody{data: p.body}, ContentLength: int64(len(p.body))}
+}
+
+func vSameBytes(a, b []byte) bool {
+	if len(a) != len(b) {
+		return false
+	}
+	same := true
+	for i := range a {
+		if a[i] != b[i] {
+			same = false
+		}
+	}
+	return same
+}
+
+// verifC06_SignVerify: a request signed by a holder of the access key verifies; a request that
+// differs from the signed one in the method, the path, a query value, a signed header or the
+// body - and carries the signed request's Authorization and date - does not; outside the TTL
+// or with an unknown key nothing verifies.
+func verifC06_SignVerify() {
+	n := verifBound("maxStr")
+	signed := vPartsOf("signed", n)
+	r1 := signed.request()
+	s := New().SetCredential("key1", "secret1").SetAccessKeyStore(vKeyStore{})
+	ttl := time.Minute
+	s.SetTTL(ttl)
+	verifAssert(s.NewContext(vSignTime, "scope1").Sign(r1) == nil, "signing-succeeds")
+	auth, date := r1.Header.Get("Authorization"), r1.Header.Get("X-Me-Date")
+	verifAssert(auth != "" && date != "", "signature-headers-set")
+
+	sent := vPartsOf("sent", n)
+	r2 := sent.request()
+	r2.Header.Set("Authorization", auth)
+	r2.Header.Set("X-Me-Date", date)
+	if verifBool("unknownAccessKey") {
+		r2.Header.Set("Authorization", "ME-HMAC-SHA256 Credential=key2"+auth[len("ME-HMAC-SHA256 Credential=key1"):])
+		verifCover("unknown-key")
+	}
+	ages := []time.Duration{0, ttl, -ttl, ttl + 1, -ttl - 1}
+	vVerifyAge = ages[verifChoose("ageAtVerification", len(ages))]
+	err := s.Verify(r2)
+
+	same := signed.method == sent.method && signed.path == sent.path && signed.query == sent.query &&
+		signed.header == sent.header && vSameBytes(signed.body, sent.body)
+	inTTL := vVerifyAge >= -ttl && vVerifyAge <= ttl
+	knownKey := r2.Header.Get("Authorization") == auth
+	verifAssert((err == nil) == (same && inTTL && knownKey), "verifies-iff-every-covered-part-is-unchanged-within-ttl-known-key")
+	if err == nil {
+		verifCover("verified")
+	} else if inTTL && knownKey {
+		verifCover("tampered-request-rejected")
+	}
+	if !inTTL {
+		verifCover("expired")
 	}
 }
